@@ -377,8 +377,8 @@ pub fn run_history(h: &History) -> RunResult {
                 let hd = &handles[s];
                 let pl = &plains[hd.geom];
                 let (bb, dims, empty): (Option<Rect<f64>>, _, bool) =
-                    with_prep!(&hd.prep, x => (x.bounding_rect(), x.dimensions(), x.is_empty()));
-                let (bb2, dims2, empty2) = with_plain!(pl, x => (x.bounding_rect().into(), x.dimensions(), x.is_empty()));
+                    with_prep!(&hd.prep, x => (x.bounding_rect(), (x.dimensions(), x.boundary_dimensions()), x.is_empty()));
+                let (bb2, dims2, empty2) = with_plain!(pl, x => (x.bounding_rect().into(), (x.dimensions(), x.boundary_dimensions()), x.is_empty()));
                 if bb != bb2 || dims != dims2 || empty != empty2 {
                     fail!(i, "accessors", "accessor-differs", format!("prepared: {:?} {:?} {} plain: {:?} {:?} {}", bb, dims, empty, bb2, dims2, empty2));
                 }
